@@ -545,6 +545,18 @@ func emitCliMeth(o *Out, m cliMethod, sc *scriptClient, script string, expectDat
 func famCliMeth(o *Out, r *RNG, thorough bool) {
 	methods := cliMethods()
 	objHeaders := http.Header{"Dav": {"1, 3, addressbook, calendar-access"}, "Allow": {"OPTIONS, GET"}, "Etag": {"\"e\""}, "Last-Modified": {"Sun, 10 Mar 2024 01:00:00 GMT"}}
+	// the same compliance classes and methods, spread over header lines and spelled as servers do (a header field may
+	// be repeated, RFC 7230 §3.2.2; the model is not told)
+	davStyles := [][]string{{"1, 3, addressbook, calendar-access"}, {"1, 3", "addressbook", "calendar-access"}, {"calendar-access, addressbook", "3,1"},
+		{"1,3,addressbook,calendar-access"}, {" 1 ,  3 , ADDRESSBOOK , Calendar-Access "}, {"3", "calendar-access", "addressbook", "1"}, {"1, 2, 3, access-control, extended-mkcol", "addressbook, calendar-access"}}
+	allowStyles := [][]string{{"OPTIONS, GET"}, {"OPTIONS", "GET"}, {"GET,OPTIONS"}, {"options, get"}}
+	styleNo := 0
+	restyle := func() {
+		styleNo++
+		objHeaders = objHeaders.Clone()
+		objHeaders["Dav"] = davStyles[styleNo%len(davStyles)]
+		objHeaders["Allow"] = allowStyles[(styleNo/len(davStyles))%len(allowStyles)]
+	}
 	goodMs := func(m cliMethod) string {
 		path := "/dav/u/cal/a/x.ics"
 		root := E("DAV:", "multistatus", richResponse(path, "nil", "200", 1), E("DAV:", "sync-token").T("tok"))
@@ -576,6 +588,7 @@ func famCliMeth(o *Out, r *RNG, thorough bool) {
 			}
 			// a good body for the method under every status
 			ct, body := goodBody(m)
+			restyle()
 			sc := &scriptClient{status: st, ctype: ct, body: body, header: objHeaders}
 			emitCliMeth(o, m, sc, fmt.Sprintf("( good %d )", st), true)
 		}
@@ -619,6 +632,58 @@ func famCliMeth(o *Out, r *RNG, thorough bool) {
 		}
 		if m.kind == "getobj" {
 			continue
+		}
+		// two resources in one answer: the first reports every property under 200, the second reports the same
+		// properties under 404 (only its type, tag and data under 200): nothing of the first may show up as the second's
+		for _, order := range []int{0, 1} {
+			full := richResponse("/dav/u/cal/a/full.ics", "nil", "200", 1)
+			bare := E("DAV:", "response", E("DAV:", "href").T("/dav/u/cal/a/bare.ics"),
+				E("DAV:", "propstat", E("DAV:", "prop",
+					E("DAV:", "resourcetype", E("DAV:", "collection"), E(nsCal, "calendar"), E(nsCard, "addressbook")),
+					E("DAV:", "getetag").T("\"clean\""),
+					E(nsCal, "calendar-data").T("BEGIN:VCALENDAR\r\nVERSION:2.0\r\nPRODID:-//x//EN\r\nBEGIN:VEVENT\r\nUID:clean\r\nDTSTAMP:20240310T010000Z\r\nEND:VEVENT\r\nEND:VCALENDAR\r\n"),
+					E(nsCard, "address-data").T("BEGIN:VCARD\r\nVERSION:4.0\r\nFN:clean\r\nEND:VCARD\r\n")),
+					E("DAV:", "status").T("HTTP/1.1 200 OK")),
+				E("DAV:", "propstat", E("DAV:", "prop",
+					E("DAV:", "displayname"), E("DAV:", "getlastmodified"), E("DAV:", "getcontentlength"), E("DAV:", "getcontenttype"),
+					E(nsCal, "calendar-description"), E(nsCard, "addressbook-description"), E(nsCal, "max-resource-size"), E(nsCard, "max-resource-size"),
+					E(nsCal, "supported-calendar-component-set"), E(nsCard, "supported-address-data")),
+					E("DAV:", "status").T("HTTP/1.1 404 Not Found")))
+			root := E("DAV:", "multistatus", full, bare)
+			if order == 1 {
+				root = E("DAV:", "multistatus", bare, full)
+			}
+			root.Add(E("DAV:", "sync-token").T("tok"))
+			sc := &scriptClient{status: 207, ctype: "text/xml", body: randStyle(r).doc(root)}
+			res, out := runCli(m, sc)
+			// the entry of the bare resource, cut out of the JSON rendering of the result
+			carried := false
+			var generic interface{}
+			if json.Unmarshal([]byte(out), &generic) == nil {
+				var walk func(v interface{})
+				walk = func(v interface{}) {
+					switch x := v.(type) {
+					case []interface{}:
+						for _, e := range x {
+							walk(e)
+						}
+					case map[string]interface{}:
+						if p, _ := x["Path"].(string); strings.HasSuffix(p, "bare.ics") {
+							b, _ := json.Marshal(x)
+							if strings.Contains(string(b), poison) || strings.Contains(string(b), "424242") || strings.Contains(string(b), "2024-03-10") {
+								carried = true
+							}
+							return
+						}
+						for _, e := range x {
+							walk(e)
+						}
+					}
+				}
+				walk(generic)
+			}
+			o.Stat("climeth.carry." + strings.Fields(res)[0])
+			o.Emit("cli.meth", fmt.Sprintf("%s %s ( carry %d ) 0", m.kind, hx(m.name), order), fmt.Sprintf("%s leak %s", res, b01(carried)))
 		}
 		// status placements inside the multi-status
 		for _, rs := range []string{"nil", "200", "204", "301", "403", "404", "500", "507"} {
